@@ -307,6 +307,7 @@ Theorem md_steps i s s1 s2 v1 v2 bl br c1 c2 :
     match basis_g1 br with None => s7 = s6 | Some g => step s6 (OGate1 a2 g) = (s7, OkNone) end /\
     step s7 (OMeas a2 false c2) = (mkNet (upd (nodes s) i (bump (nth_node s i) 2)) (S (S (next_hid s))), Ok (b2n (snd o))) /\
     next_hid s1 = a2 /\ next_hid s2 = S a2 /\
+    ginv (mkNet (upd (nodes s) i (bump (nth_node s i) 2)) (S (S (next_hid s)))) /\
     (* in between: the two temporaries are the ONLY qubits of one register of node i, whose tableau is |Phi+>'s *)
     exists sn1 sn2, nth_node s4 i = ext2m i (nth_node s i) a1 v1 sn1 a2 v2 sn2 (nextReg (nth_node s i)) 11 bell_tab 2.
 Proof.
@@ -405,11 +406,17 @@ Proof.
   split. { rewrite S6, OO. reflexivity. }
   split; [exact S7|].
   split.
-  { rewrite S8, OO. unfold mv_outcomes, b2n. cbn [fst snd]. f_equal. f_equal.
+  { rewrite S8, OO. unfold mv_outcomes, b2n. cbn [fst snd]. f_equal.
     rewrite N7, upd_upd. unfold s6. cbn [nodes next_hid]. rewrite upd_upd, N5, upd_upd.
     unfold s4, s3. cbn [nodes next_hid]. rewrite !upd_upd, N2, upd_upd, N1, upd_upd. f_equal.
     rewrite X7. unfold s6. cbn [next_hid]. rewrite X5. unfold s4, s3. cbn [next_hid]. exact X2. }
+  assert (FIN : mkNet (upd (nodes s7) i (bump nd 2)) (next_hid s7) = mkNet (upd (nodes s) i (bump nd 2)) (S (S (next_hid s)))).
+  { f_equal.
+    - rewrite N7, upd_upd. unfold s6. cbn [nodes next_hid]. rewrite upd_upd, N5, upd_upd.
+      unfold s4, s3. cbn [nodes next_hid]. rewrite !upd_upd, N2, upd_upd, N1, upd_upd. reflexivity.
+    - rewrite X7. unfold s6. cbn [next_hid]. rewrite X5. unfold s4, s3. cbn [next_hid]. exact X2. }
   split; [exact X1|]. split; [exact X2|].
+  split. { pose proof (step_ginv s7 (OMeas a2 false c2) G7) as X. rewrite S8 in X. cbn [fst] in X. rewrite FIN in X. exact X. }
   exists sn1, sn2. rewrite E4, pair_tab_is_bell. reflexivity.
 Qed.
 
